@@ -339,6 +339,52 @@ fn search_props(prop: &str, tier: &str, seed: u64, threads: usize, out: &str) {
             l
         });
         extra.insert("large".into(), format!("{nbig} graphs with 900-1400 nodes"));
+        // deep graphs: one long chain closed back to its start, with a few extra edges near the far end
+        // (recursion depth, cycles that close far from the root)
+        exec::new_section();
+        let ndeep = if quick { 4 } else { 16 };
+        let fls = flavours.clone();
+        let p = prop.to_string();
+        spread(&mut ctxs, ndeep, |i| {
+            let mut rng = Rng::new(seed.wrapping_mul(7_000_079).wrapping_add(i as u64));
+            let fl = fls[i % fls.len()];
+            let n = 1100 + rng.below(500);
+            let mut edges: Vec<(usize, usize, u32)> = (0..n - 1).map(|u| (u, u + 1, (u % 3) as u32)).collect();
+            let closing = n - 2 - rng.below(3);
+            edges.push((closing, 0, 1));
+            edges.push((closing, n - 1, 2));
+            for _ in 0..4 {
+                edges.push((n - 1 - rng.below(6), n - 1 - rng.below(40), 0));
+            }
+            let g = gen_search::GraphSpec { n, vals: (0..n).map(|k| (k % 4) as i64).collect(), edges };
+            let mut l = vec![format!("case {fl} deep{i}")];
+            l.extend(gen_search::graph_lines(&g));
+            let kinds: Vec<&str> = match p.as_str() { "C04" => vec!["bfs"], "C05" => vec!["dfs"], "C06" => vec!["pfs-min", "pfs-max"], "C10" => vec![], _ => vec!["bfs", "dfs", "pfs-min"] };
+            for k in &kinds {
+                for m in ["none", "each"] {
+                    if p == "C09" || p == "C07" || p == "C08" {
+                        l.push(format!("search {k} fwd 0 - {m} cycle"));
+                    }
+                    if p != "C09" {
+                        l.push(format!("search {k} fwd 0 {} {m} path", n - 1));
+                        l.push(format!("search {k} fwd 0 {} {m} node", closing));
+                    }
+                }
+            }
+            if ["C07", "C08", "C10"].contains(&p.as_str()) {
+                for k in ["pre", "post"] {
+                    l.push(format!("order {k} fwd 0 none nodes"));
+                    l.push(format!("order {k} fwd 0 each edges"));
+                }
+            }
+            if fl == "di" || fl == "sdi" {
+                if p == "C08" || p == "C09" {
+                    l.push("search dfs tr 0 - none cycle".into());
+                }
+            }
+            l
+        });
+        extra.insert("deep".into(), format!("{ndeep} closed chains of 1100-1600 nodes"));
     }
     if ["C04", "C05", "C06", "C09", "C10"].contains(&prop) {
         // the same searches over nodes whose key type has colliding hashes (visited sets, lookups by key)
